@@ -433,38 +433,58 @@ gen_c02_scaled (gen_t *g, rng_t *r, scenario_t *sc)
     gen_bits_exact (g, 2, fi[0], gen_pick_size (g, 64), (int)rng_range (r, 1, 24), (int)rng_n (r, 2), rng_chance (r, 1, 6), (int)rng_n (r, 16), 0);
     /* a8 mask with holes: fill_bytes already mixes runs of 0x00 and 0xff in */
     for (k = 0; k < sim_n_formats; k++) if (sim_formats[k] == PIXMAN_a8) break;
-    gen_bits_exact (g, 3, k, g->s[0].w, g->s[0].h, (int)rng_n (r, 2), 0, (int)rng_n (r, 16), 0);
+    /* as large as the destination, or exactly as large as the source (then a mask that is
+     * sampled like the source has the very same flag word as the source) */
+    if (rng_chance (r, 1, 2)) gen_bits_exact (g, 3, k, g->s[0].w, g->s[0].h, (int)rng_n (r, 2), 0, (int)rng_n (r, 16), 0);
+    else gen_bits_exact (g, 3, k, g->s[2].w, g->s[2].h, (int)rng_n (r, 2), 0, (int)rng_n (r, 16), 0);
     gen_solid (g, 4);
-    for (i = 0; i < n_req; i++)
     {
 	int64_t a[16] = { 0, 0, 0, 2, 0, 65536, 0, 0, 0, 65536, 0, 0, 0, 65536 };
-	int64_t f[9] = { 0, 0, 0, 2, rng_chance (r, 1, 2) ? PIXMAN_FILTER_NEAREST : PIXMAN_FILTER_BILINEAR, 1, 1, 0, 0 };
-	int64_t rp[5] = { 0, 0, 0, 2, rng_n (r, 4) };
-	int mask = rng_chance (r, 1, 2) ? -1 : rng_chance (r, 2, 3) ? 3 : 4;
-	a[5] = rng_chance (r, 1, 5) ? 65536 : rng_range (r, 6000, 5 * 65536);       /* x scale: non-integer steps mostly */
-	a[9] = rng_chance (r, 1, 3) ? 65536 : rng_range (r, 6000, 5 * 65536);
-	a[7] = rng_range (r, -8 * 65536, 40 * 65536); a[10] = rng_range (r, -4 * 65536, 12 * 65536);
-	sc_addv (sc, MOP_SET_TRANSFORM, 14, a);
-	sc_addv (sc, MOP_SET_FILTER, 9, f);
-	sc_addv (sc, MOP_SET_REPEAT, 5, rp);
-	if (i && rng_chance (r, 1, 2)) { sc->n_ops -= 3; }      /* same sampling state as the request before: dispatch-cache hits */
-	switch (rng_n (r, 4))
+	int64_t f[9] = { 0, 0, 0, 2, PIXMAN_FILTER_NEAREST, 1, 1, 0, 0 };
+	int64_t rp[5] = { 0, 0, 0, 2, 0 };
+	for (i = 0; i < n_req; i++)
 	{
-	case 0:
-	    /* the a8 mask sampled exactly like the source: equal flag words for source and mask */
-	    a[3] = f[3] = rp[3] = 3;
-	    sc_addv (sc, MOP_SET_TRANSFORM, 14, a); sc_addv (sc, MOP_SET_FILTER, 9, f); sc_addv (sc, MOP_SET_REPEAT, 5, rp);
-	    break;
-	case 1:
-	{
-	    int64_t t0[14] = { 0, 0, 0, 3, 1 }, f0[9] = { 0, 0, 0, 3, PIXMAN_FILTER_NEAREST, 1, 1, 0, 0 }, r0[5] = { 0, 0, 0, 3, 0 };
-	    sc_addv (sc, MOP_SET_TRANSFORM, 14, t0); sc_addv (sc, MOP_SET_FILTER, 9, f0); sc_addv (sc, MOP_SET_REPEAT, 5, r0);
-	    break;
+	    int mask = rng_chance (r, 1, 3) ? -1 : rng_chance (r, 3, 4) ? 3 : 4;
+	    if (i == 0 || rng_chance (r, 1, 2))
+	    {
+		/* a new sampling state for the source; otherwise the one of the request before stays
+		 * (dispatch-cache hits, and misses that differ in one flag only) */
+		a[3] = f[3] = rp[3] = 2;
+		f[4] = rng_chance (r, 1, 2) ? PIXMAN_FILTER_NEAREST : PIXMAN_FILTER_BILINEAR;
+		rp[4] = rng_n (r, 4);
+		a[5] = rng_chance (r, 1, 5) ? 65536 : rng_range (r, 6000, 5 * 65536);       /* x scale: non-integer steps mostly */
+		a[9] = rng_chance (r, 1, 3) ? 65536 : rng_range (r, 6000, 5 * 65536);
+		a[7] = rng_range (r, -8 * 65536, 40 * 65536); a[10] = rng_range (r, -4 * 65536, 12 * 65536);
+		sc_addv (sc, MOP_SET_TRANSFORM, 14, a);
+		sc_addv (sc, MOP_SET_FILTER, 9, f);
+		sc_addv (sc, MOP_SET_REPEAT, 5, rp);
+	    }
+	    switch (rng_n (r, 4))
+	    {
+	    case 0:
+		/* the a8 mask sampled exactly like the source: equal flag words for source and mask */
+		a[3] = f[3] = rp[3] = 3;
+		sc_addv (sc, MOP_SET_TRANSFORM, 14, a); sc_addv (sc, MOP_SET_FILTER, 9, f); sc_addv (sc, MOP_SET_REPEAT, 5, rp);
+		a[3] = f[3] = rp[3] = 2;
+		break;
+	    case 1:
+	    {
+		int64_t t0[14] = { 0, 0, 0, 3, 1 }, f0[9] = { 0, 0, 0, 3, PIXMAN_FILTER_NEAREST, 1, 1, 0, 0 }, r0[5] = { 0, 0, 0, 3, 0 };
+		sc_addv (sc, MOP_SET_TRANSFORM, 14, t0); sc_addv (sc, MOP_SET_FILTER, 9, f0); sc_addv (sc, MOP_SET_REPEAT, 5, r0);
+		break;
+	    }
+	    default: break;
+	    }
+	    gen_composite (g, 0, 2, mask, 0);
+	    sc->ops[sc->n_ops - 1].a[M_PREFIX] = ops[rng_n (r, 5)];
+	    if (rng_chance (r, 1, 2))
+	    {
+		/* same offsets for source and mask, full destination */
+		sim_op_t *op = &sc->ops[sc->n_ops - 1];
+		op->a[M_PREFIX + 6] = op->a[M_PREFIX + 4]; op->a[M_PREFIX + 7] = op->a[M_PREFIX + 5];
+		op->a[M_PREFIX + 8] = op->a[M_PREFIX + 9] = 0; op->a[M_PREFIX + 10] = g->s[0].w; op->a[M_PREFIX + 11] = g->s[0].h;
+	    }
 	}
-	default: break;
-	}
-	gen_composite (g, 0, 2, mask, 0);
-	sc->ops[sc->n_ops - 1].a[M_PREFIX] = ops[rng_n (r, 5)];
     }
 }
 
